@@ -71,6 +71,21 @@ def run(tier, seed):
     chk.add_tlc(res)
     cases = [(r["id"], r["case"]) for r in sorted(res.records, key=lambda r: r["id"])]
     spec = {r["id"]: r for r in res.records}
+    # scale-up: rooms with more than 1000 cells (one room covering a 36x36 board; two halves of a 40x30 board; one row of
+    # 1200 cells), Rooms and ValuedRooms; judged by the same round-trip clauses (the transcription is not run on them)
+    nid = max(spec) + 1
+    for (h, w, split) in ((36, 36, None), (40, 30, 15), (1, 1200, 700)):
+        if split is None:
+            rooms = [[[y, x] for y in range(h) for x in range(w)]]
+        else:
+            rooms = [[[y, x] for y in range(h) for x in range(w) if x < split], [[y, x] for y in range(h) for x in range(w) if x >= split]]
+        cases.append((nid, {"fam": "rooms", "h": h, "w": w, "term": {"c": "Rooms"}, "v": rooms, "big": True}))
+        spec[nid] = {"roundtrip": True, "text": "(not transcribed)", "accepted": True}
+        nid += 1
+        cases.append((nid, {"fam": "vrooms", "h": h, "w": w, "term": {"c": "ValuedRooms", "value": {"c": "HexInt"}},
+                            "v": [rooms, [17 + i for i in range(len(rooms))]], "big": True}))
+        spec[nid] = {"roundtrip": True, "text": "(not transcribed)", "accepted": True}
+        nid += 1
     with RobustPool(NPROC) as pool:
         outs = pool.map(work, chunks(cases, NPROC * 4))
     recs = [x for o in outs for x in o]
